@@ -1405,6 +1405,10 @@ where
     #[inline(always)]
     fn skip_number_unsafe(&mut self) -> Result<()> {
         let _ = self.get_next_token([b']', b'}', b','], 0);
+        // the number ends before the whitespace that may stand between it and the next token
+        while is_whitespace(self.read.at(self.read.index() - 1)) {
+            self.read.backward(1);
+        }
         Ok(())
     }
 
